@@ -19,7 +19,7 @@ fn big(f: &CorpusFont) -> bool {
 }
 
 pub fn sec_random(ctx: &mut Ctx, fonts: &[CorpusFont], items: &mut Items) {
-    let per_small = ctx.budget(1130, 9600);
+    let per_small = ctx.budget(1050, 9600);
     let per_big = ctx.budget(100, 800);
     for (fi, f) in fonts.iter().enumerate() {
         let n = if big(f) { per_big } else { per_small };
